@@ -69,12 +69,19 @@ var (
 	allNames  = []string{"p0", "p1"}
 )
 
+// the id component may be written "~<hex of the UTF-8 bytes>" (ids with '/', '|', blanks, unicode, ...): the wire
+// format and the model only see the token, the implementation gets the decoded id.
 func splitKey(k string) (g, n, id string) {
 	p := strings.SplitN(k, "/", 3)
 	if len(p) == 3 {
-		return p[0], p[1], p[2]
+		g, n, id = p[0], p[1], p[2]
+	} else {
+		g, n, id = allGroups[0], allNames[0], k
 	}
-	return allGroups[0], allNames[0], k
+	if strings.HasPrefix(id, "~") {
+		id = string(drv.UnHex(id[1:]))
+	}
+	return
 }
 
 var schemaTags = []string{"a", "b", "c", "d"}
@@ -197,6 +204,7 @@ func (h *harness) close() {
 }
 
 type caseCtx struct {
+	tokens map[string]string // group/name/<real id> -> key token
 	h      *harness
 	revMap map[int64]int64 // raw revision -> logical ts
 	keys   map[string]bool
@@ -208,6 +216,7 @@ type caseCtx struct {
 func (c *caseCtx) key(k string) (string, string, string) {
 	c.keys[k] = true
 	g, n, id := splitKey(k)
+	c.tokens[g+"/"+n+"/"+id] = k
 	return g, n, c.prefix + id
 }
 
@@ -328,9 +337,11 @@ func (c *caseCtx) state() string {
 func (c *caseCtx) showQuery(resp *propertyv1.QueryResponse, keepOrder bool) string {
 	var parts []string
 	for _, p := range resp.Properties {
-		k := strings.TrimPrefix(p.Id, c.prefix)
-		if !(p.Metadata.Group == allGroups[0] && p.Metadata.Name == allNames[0] && c.keys[k]) {
-			k = p.Metadata.Group + "/" + p.Metadata.Name + "/" + k
+		k := p.Metadata.Group + "/" + p.Metadata.Name + "/" + strings.TrimPrefix(p.Id, c.prefix)
+		if t, ok := c.tokens[k]; ok {
+			k = t
+		} else {
+			k = "?" + drv.Hex([]byte(k))
 		}
 		parts = append(parts, fmt.Sprintf("%s=%s/%s/%s", k, c.rev(p.Metadata.ModRevision), c.rev(p.Metadata.CreateRevision), showTags(p.Tags)))
 	}
@@ -599,7 +610,7 @@ func (h *harness) history(f []string) string {
 	if nrep < 1 || nrep > maxRep {
 		return "bad-op"
 	}
-	c := &caseCtx{h: h, prefix: fmt.Sprintf("c%dx", h.caseNo), nrep: nrep, revMap: map[int64]int64{}, keys: map[string]bool{}}
+	c := &caseCtx{tokens: map[string]string{}, h: h, prefix: fmt.Sprintf("c%dx", h.caseNo), nrep: nrep, revMap: map[int64]int64{}, keys: map[string]bool{}}
 	var ops [][]string
 	var cur []string
 	for _, t := range f[2:] {
@@ -687,6 +698,13 @@ func main() {
 			return h.history(f)
 		case f[0] == "DD":
 			return h.dedup(f)
+		case f[0] == "LE" && len(f) == 4:
+			// LE <group hex> <name hex> <id hex>: Merkle leaf name of a property and its inverse
+			e, g, n, i, err := h.reps[0].shards[allGroups[0]].LeafRoundTrip(string(drv.UnHex(f[1])), string(drv.UnHex(f[2])), string(drv.UnHex(f[3])))
+			if err != nil {
+				return drv.Hex([]byte(e)) + " ERR"
+			}
+			return fmt.Sprintf("%s %s %s %s", drv.Hex([]byte(e)), drv.Hex([]byte(g)), drv.Hex([]byte(n)), drv.Hex([]byte(i)))
 		}
 		return "bad-op"
 	})
